@@ -26,9 +26,9 @@ OPEN_STATEMENTS = [
     'bk_exact / bk_majorana_exact / tree_exact are proved under the decidable hypothesis "exact regime" (no non-zero value deleted '
     'by the |v| < EQ_TOLERANCE test of +=), evaluated by the Model on every generated input (distribution key '
     'theorem-hypothesis exact-regime); the term-level theorems bk_term_exact / bk_majorana_term_exact / tree_term_exact are unconditional',
-    'srl_sound (_seeley_richard_love(i,j,c,n) denotes c a_i^dagger a_j under the encoding, cases 0-10): NOT proved; '
-    'only srl_cases_exhaustive (no pair i,j < n falls through the elif chain) is a theorem; soundness is covered by '
-    'exact correspondence for ALL i,j < n <= 14/24 (case histogram in the evidence) and the Spec oracle for n <= 8',
+    'srl_sound / srl_sound_case_0 .. srl_sound_case_10 (every branch of _seeley_richard_love denotes c a_i^dagger a_j under the '
+    'encoding, all n, all i,j < n) ARE theorems, under the decidable exact-regime hypothesis srlOk (no tolerance deletion in '
+    '_qubit_operator_creation), evaluated by the driver on every generated (i, j, c, n)',
     'bk_interaction_sound (the InteractionOperator path, cases A-D, equals the FermionOperator path, also for '
     'n_qubits above the tensor size): NOT proved; correspondence + Spec oracle against the tensor formula + exact '
     'comparison with bravyi_kitaev(get_fermion_operator(.), n_qubits)',
@@ -244,7 +244,7 @@ def stream_srl(ctx):
                       {'op': 'c05.srl', 'i': i, 'j': j, 'coef': to_gq(c), 'n': n},
                       oracle('bk', 'fermion', n, ['one_body_term', i, j, to_gq(c)], jQ)
                       if (n <= 8 or (n <= NO and i % 2 == 1 and j % 2 == 1 and i != j)) else None,
-                      cmp=cmp_srl)
+                      cmp=cmp_srl, regime_req={'op': 'c05.srl_ok', 'i': i, 'j': j, 'coef': to_gq(c), 'n': n})
         if len(b.items) > 3000:
             b.flush()
     b.flush()
